@@ -1413,6 +1413,27 @@ class Server:
         connection.response(code, info)
         return True
 
+    @staticmethod
+    async def _start_server_or_release(release, *args, **kwargs):
+        """
+        :py:func:`asyncio.start_server`, which never leaves a listening socket
+        behind when the caller is cancelled (connection is closing while its
+        passive server is still starting): start-up is finished in background,
+        the socket is closed at once and `release` is called after that.
+        """
+        task = asyncio.create_task(asyncio.start_server(*args, **kwargs))
+        try:
+            return await asyncio.shield(task)
+        except asyncio.CancelledError:
+
+            def cleanup(task):
+                if not task.cancelled() and task.exception() is None:
+                    task.result().close()
+                release()
+
+            task.add_done_callback(cleanup)
+            raise
+
     async def _start_passive_server(self, connection, handler_callback):
         if self.available_data_ports is not None:
             viewed_ports = set()
@@ -1422,7 +1443,11 @@ class Server:
                     if port in viewed_ports:
                         raise errors.NoAvailablePort
                     viewed_ports.add(port)
-                    passive_server = await asyncio.start_server(
+                    passive_server = await self._start_server_or_release(
+                        functools.partial(
+                            self.available_data_ports.put_nowait,
+                            (priority, port),
+                        ),
                         handler_callback,
                         connection.server_host,
                         port,
@@ -1438,7 +1463,8 @@ class Server:
                     if err.errno != errno.EADDRINUSE:
                         raise
         else:
-            passive_server = await asyncio.start_server(
+            passive_server = await self._start_server_or_release(
+                lambda: None,
                 handler_callback,
                 connection.server_host,
                 connection.passive_server_port,
